@@ -330,8 +330,13 @@ StWhere(q, data, rows) ==
                      IF IsArr(rows[i]) THEN <<r[i]>>
                      ELSE IF r[i].b THEN <<rows[i]>> ELSE <<>>]))
 
-\* grouping columns are plain column names (q.group \in Seq(STRING))
-GroupKey(q, row) == [i \in 1..Len(q.group) |-> Get(row, q.group[i])]
+\* grouping columns are plain column names (q.group \in Seq(STRING)); over an aliased table they are written with the
+\* alias as their qualifier (q.gqual, optional): GROUP BY r.g reads r.g, and the group row holds the key where the select
+\* list, HAVING and ORDER BY read it back - under r
+GQual(q) == IF "gqual" \in DOMAIN q THEN q.gqual ELSE ""
+\* the ORDER BY of a union (optional field)
+UOrder(q) == IF "order" \in DOMAIN q THEN q.order ELSE <<>>
+GroupKey(q, row) == [i \in 1..Len(q.group) |-> IF GQual(q) = "" THEN Get(row, q.group[i]) ELSE PathGet(row, <<GQual(q), q.group[i]>>)]
 
 \* groups in order of first appearance; each group row = grouping columns + "*" -> members
 StGroup(q, data, rows) ==
@@ -339,9 +344,10 @@ StGroup(q, data, rows) ==
     ELSE LET ks   == [i \in 1..Len(rows) |-> GroupKey(q, rows[i])]
              dk   == Dedup(ks)
              grow(k) == LET mem == FilterSeq(rows, {i \in DOMAIN rows : ks[i] = k})
-                        IN  ObjV([x \in Range(q.group) \cup {"*"} |->
-                                    IF x = "*" THEN ArrV(mem)
-                                    ELSE k[CHOOSE j \in DOMAIN q.group : q.group[j] = x]])
+                            keys == [x \in Range(q.group) |-> k[CHOOSE j \in DOMAIN q.group : q.group[j] = x]]
+                        IN  IF GQual(q) = ""
+                            THEN ObjV([x \in Range(q.group) \cup {"*"} |-> IF x = "*" THEN ArrV(mem) ELSE keys[x]])
+                            ELSE ObjV([x \in {GQual(q), "*"} |-> IF x = "*" THEN ArrV(mem) ELSE ObjV(keys)])
              all  == [i \in 1..Len(dk) |-> grow(dk[i])]
              hv   == [i \in 1..Len(all) |-> IF IsNone(q.having) THEN BoolV(TRUE) ELSE Ev(q.having, all[i], data)]
          IN  IF \E i \in DOMAIN ks : AnyErr(ks[i]) THEN Err
@@ -410,7 +416,9 @@ RunQ(q, data) ==
             b == RunQ(q.r, data)
         IN  IF IsErr(a) \/ IsErr(b) THEN Err
             ELSE LET c == AsRows(a) \o AsRows(b)
-                 IN  ArrV(Window(IF q.all THEN c ELSE Dedup(c), q.offset, q.limit))
+                     u == IF q.all THEN c ELSE Dedup(c)
+                 \* an ORDER BY behind the last branch (q.order, optional) sorts the combined result, the window comes last
+                 IN  ArrV(Window(IF UOrder(q) = <<>> THEN u ELSE SortStable(u, UOrder(q)), q.offset, q.limit))
     ELSE
         LET d == BindCtes(q.with, data) IN
         IF IsErr(d) THEN Err ELSE
